@@ -229,8 +229,14 @@ def run_paths(payload, props):
                 continue
             stats["path_steps"] += 1
             key, expandable, out, outcome = res
+            pathname = "+".join(o[0] + ("[%s]" % variant(o) if variant(o) else "") for o in hist[:i + 1])
             for p in props:
-                violations.extend(out[p])
+                for s, c, d in out[p]:
+                    s = dict(s)
+                    s["path"] = pathname
+                    c = dict(c)
+                    c["path"] = True
+                    violations.append((s, c, d))
             if out["C01"] or out["C02"]:
                 bad = True
                 break
@@ -328,6 +334,7 @@ def run_task(payload, props=("C01", "C02")):
 def replay_case(case, props):
     if case.get("path"):
         r = run_paths({"interface": case["interface"], "paths": [list(case["history"]) + [case["op"]]]}, props)
+        full = [list(_l(h)) for h in case["history"]] + [case["op"]]
         return [{"sig": s, "detail": d} for s, c, d in r["violations"]]
     res = check_step(case["interface"], _t(case["history"]), _t(case["op"])) if case.get("op") else None
     if res is None:
